@@ -142,7 +142,35 @@ def gen_consts(repo):
         if not raw:
             text = text.replace("\\\\", "\\")   # ordinary literal: unescape backslashes (none of the five uses other escapes)
         regs[name] = text
+    tails = read(repo, "src/services/tails.rs")
+    m = re.search(r"const\s+TAILS_BLOB_TAG_SZ\s*:\s*u8\s*=\s*(\d+)\s*;", tails)
+    if not m:
+        die("TAILS_BLOB_TAG_SZ not found")
+    tag_sz = m.group(1)
+    m = re.search(r"let\s+version\s*=\s*&\[([^\]]*)\]\s*;", tails)
+    if not m:
+        die("tails version tag literal not found")
+    ver = [re.sub(r"u8$", "", x.strip()) for x in m.group(1).split(",") if x.strip()]
+    if not all(v.isdigit() for v in ver):
+        die("tails version tag literal not understood")
+    if "read(\n                TAIL_SIZE,\n                TAIL_SIZE * tail_id as usize + TAILS_BLOB_TAG_SZ as usize," not in tails.replace("\r", ""):
+        die("access_tail offset expression not found")
+    rn = [b for (n, b) in rust_functions(tails) if n == "rename"]
+    if len(rn) != 1:
+        die("TempFile::rename not found")
+    rn = rn[0]
+    i_ren = rn.find("std::fs::rename")
+    if i_ren < 0:
+        die("std::fs::rename not found in TempFile::rename")
+    defuse = [rn.find(x) for x in ("ManuallyDrop::new", "mem::forget", "forget(")]
+    defuse = [d for d in defuse if d >= 0]
+    if not defuse:
+        die("no drop-guard defusing found in TempFile::rename")
+    disarm_before = min(defuse) < i_ren
     body = HEADER
+    body += f"Definition gen_tails_blob_tag_sz : Z := {tag_sz}%Z.\n"
+    body += "Definition gen_tails_version : list Z := [" + "; ".join(v + "%Z" for v in ver) + "].\n"
+    body += f"Definition gen_tails_disarm_before_rename : bool := {'true' if disarm_before else 'false'}.\n"
     body += "Definition gen_qualifiable_tags : list string := [" + "; ".join(coq_str(t) for t in tags) + "].\n"
     body += f"Definition gen_max_attributes_count : Z := {max_attrs}%Z.\n"
     for name, text in regs.items():
